@@ -19,7 +19,7 @@ theorem create_forces_noninitial (i : In) :
 theorem gate_eq (h : Handler) (c : Cause) (m : Bool) : Extracted.gate h c m = (gate h c && m) := by
   rcases h with ⟨hr, hi, hd⟩
   rcases c with ⟨cr, ci, cm⟩
-  cases hi <;> cases hd <;> cases ci <;> cases cm <;> cases m <;>
+  cases hr <;> cases hi <;> cases hd <;> cases ci <;> cases cm <;> cases m <;>
     simp [Extracted.gate, gate]
 
 theorem handler_reasons_eq : Extracted.handlerReasons = handlerReasons := by decide
